@@ -951,6 +951,11 @@ pub fn run_c15(report: &mut Report) {
         if thorough || ["unknown-as-set", "PeerAS", "unknown-route-set"].contains(kind) {
             scenarios.push(((*kind).to_string(), vec![("bad".into(), expr.clone()), ("good-a".into(), good[0].1.render()), ("bad2".into(), expr.clone())], vec![0, 2], plan.clone()));
         }
+        // every managed policy of the run is unevaluable: one alone, two of two
+        if thorough || ["unknown-as-set", "PeerAS", "irr-error-F"].contains(kind) {
+            scenarios.push(((*kind).to_string(), vec![("bad".into(), expr.clone())], vec![0], plan.clone()));
+            scenarios.push(((*kind).to_string(), vec![("bad".into(), expr.clone()), ("bad2".into(), expr.clone())], vec![0, 1], plan.clone()));
+        }
         if *kind == "unknown-as-set" || (thorough && *kind == "as-path-regex") {
             scenarios.push(((*kind).to_string(), vec![("bad".into(), expr.clone()), ("bad2".into(), expr.clone()), ("good-c".into(), good[2].1.render()), ("bad3".into(), expr.clone())], vec![0, 1, 3], plan.clone()));
         }
@@ -1038,21 +1043,7 @@ pub fn run_c15(report: &mut Report) {
             report.sample(json!({"unevaluable_kind": o.kind, "policies": o.pols, "requests_seen": rec.rpcs, "exit_status": rec.exit}));
         }
     }
-    // a large configuration: 70 managed policies that all name filter-sets, one of them unevaluable; every other one
-    // must be installed (per-run state inside the evaluator - budgets, counters - shows only with many policies)
-    {
-        let irrd = Irrd::start(model.db.clone());
-        let mut pols: Vec<(String, String)> = (0..70).map(|i| (format!("many-{i:02}"), ["FLTR-F", "FLTR-G", "FLTR-H", "(FLTR-C OR FLTR-G)"][i % 4].to_string())).collect();
-        pols.push(("many-bad".into(), "AS-GONE".into()));
-        let running: Vec<RunningStmt> = pols.iter().map(|(n, e)| managed_stmt(n, e)).collect();
-        let scn = Scenario { instance_name: None, running, ephemeral: Instance::default(), fault: None, expected_loads: 70, irr_plan: Plan::default() };
-        let rec = run_agent(&scn, &irrd, "C15-many");
-        runs += 1;
-        let missing: Vec<&String> = pols.iter().filter(|(n, _)| n != "many-bad" && !rec.ephemeral_after.policies.contains_key(n)).map(|(n, _)| n).collect();
-        if rec.exit != Some(0) || !missing.is_empty() || rec.ephemeral_after.policies.contains_key("many-bad") {
-            report.violation("C15:other-policy-not-updated:large-configuration", &format!("70 evaluable policies naming filter-sets plus one unevaluable policy: exit {:?}, {} evaluable policies were not installed (e.g. {:?})", rec.exit, missing.len(), missing.iter().take(3).collect::<Vec<_>>()), json!({"policies": pols.len(), "not_installed": missing, "exit_status": rec.exit, "agent_log_tail": rec.stderr_tail}));
-        }
-    }
+    runs += many_policies_slice(report, "C15", &model, true);
     // the evaluation stage in isolation (fast path, same kinds)
     let n = crate::e5::unobtainable_cases(report, "C15");
     report.set("evaluations", runs + n);
@@ -1062,6 +1053,26 @@ pub fn run_c15(report: &mut Report) {
     report.set("exhaustive", true);
     report.set("rule", "the real agent end to end (fake Junos + fake IRRd) for policy sets of 2-3 managed policies of which 1-2 are valid RPSL but unevaluable (unknown as-set, IRR error answers E / F to the as-set query, PeerAS, AS-path regular expressions, attribute matches), repeated until every evaluation order of the evaluable policies was observed in the IRR query log (or the repeat cap); oracle: exit 0, one commit, every other policy installed with exactly its oracle set, nothing installed for the unevaluable one; distinct = (kind, set size)");
     report.assume("evaluation order is observed (HashMap iteration), not forced");
+}
+
+/// A large configuration: 70 managed policies that all name filter-sets (and, for C15, one more that cannot be
+/// evaluated); every evaluable one must be installed. State that lives in the evaluator for the length of a run -
+/// budgets, counters, caches - shows only with many policies. Returns the number of agent runs.
+pub fn many_policies_slice(report: &mut Report, prop: &str, model: &Model, with_bad: bool) -> u64 {
+    let irrd = Irrd::start(model.db.clone());
+    let mut pols: Vec<(String, String)> = (0..70).map(|i| (format!("many-{i:02}"), ["FLTR-F", "FLTR-G", "FLTR-H", "(FLTR-C OR FLTR-G)"][i % 4].to_string())).collect();
+    if with_bad {
+        pols.push(("many-bad".into(), "AS-GONE".into()));
+    }
+    let running: Vec<RunningStmt> = pols.iter().map(|(n, e)| managed_stmt(n, e)).collect();
+    let scn = Scenario { instance_name: None, running, ephemeral: Instance::default(), fault: None, expected_loads: 70, irr_plan: Plan::default() };
+    let rec = run_agent(&scn, &irrd, &format!("{prop}-many"));
+    let missing: Vec<&String> = pols.iter().filter(|(n, _)| n != "many-bad" && !rec.ephemeral_after.policies.contains_key(n)).map(|(n, _)| n).collect();
+    if rec.exit != Some(0) || !missing.is_empty() || rec.ephemeral_after.policies.contains_key("many-bad") {
+        let key = if prop == "C15" { "C15:other-policy-not-updated:large-configuration".to_string() } else { format!("{prop}:agent:policy-evaluated-after-many-others-is-not-installed") };
+        report.violation(&key, &format!("70 evaluable policies naming filter-sets{}: exit {:?}, {} evaluable policies were not installed (e.g. {:?}) although each of them evaluates on a fresh connection", if with_bad { " plus one unevaluable policy" } else { "" }, rec.exit, missing.len(), missing.iter().take(3).collect::<Vec<_>>()), json!({"policies": pols.len(), "not_installed": missing, "exit_status": rec.exit, "agent_log_tail": rec.stderr_tail}));
+    }
+    1
 }
 
 // ---------------- C01: end-to-end slice through the real agent ----------------
@@ -1289,6 +1300,18 @@ pub fn c02_slice(report: &mut Report) -> u64 {
     let irrd = Irrd::start(model.db.clone());
     let mut installed = Instance::default();
     let mut runs = 0;
+    // the agent's own ephemeral instance could not be opened (every way of being refused): whatever it writes
+    // afterwards lands in another database
+    for kind in [FaultKind::RpcError, FaultKind::MixedSeverity, FaultKind::Busy(0), FaultKind::NestedError, FaultKind::Malformed] {
+        let running: Vec<RunningStmt> = [("pol-a", "AS-A")].iter().map(|(n, e)| managed_stmt(n, e)).collect();
+        let scn = Scenario { instance_name: Some("verif-instance-7".into()), running, ephemeral: Instance::default(), fault: Some((0, kind)), expected_loads: 1, irr_plan: Plan::default() };
+        let rec = run_agent(&scn, &irrd, &format!("C02-refused-{kind:?}"));
+        runs += 1;
+        let written: Vec<&String> = rec.rpcs.iter().filter(|r| *r == "load-configuration" || *r == "commit-configuration").collect();
+        if !written.is_empty() {
+            report.violation(&format!("C02:e2e:writes-without-its-instance-open:{kind:?}"), &format!("open-configuration was refused ({kind:?}) and the agent went on to send {written:?}: with no ephemeral instance open these act on another database"), json!({"requests_seen": rec.rpcs, "acknowledged": rec.acked, "exit_status": rec.exit}));
+        }
+    }
     for (round, pols) in [vec![("pol-a", "AS-A"), ("pol-b", "AS65003")], vec![("pol-a", "AS65002"), ("pol-c", "RS-X")]].into_iter().enumerate() {
         let running: Vec<RunningStmt> = pols.iter().map(|(n, e)| managed_stmt(n, e)).collect();
         let scn = Scenario { instance_name: Some("verif-instance-7".into()), running, ephemeral: installed.clone(), fault: None, expected_loads: 0, irr_plan: Plan::default() };
